@@ -32,11 +32,15 @@ def commands(name):
     if name.startswith('rich-'):
         # specifications written for this pool: they name the types, functions and members of the shapes family, so that
         # their constraints (offsets of members, enumerators, parameters) are really evaluated against the binaries
-        return ['abidiff-suppr', 'abidiff-suppr-shapes', 'abidw-suppr', 'abicompat-suppr']
-    return ['abidiff-suppr', 'abidw-suppr', 'abicompat-suppr']
+        return ['abidiff-suppr', 'abidiff-suppr-shapes', 'abidiff-suppr-nodbg', 'abidw-suppr', 'abicompat-suppr']
+    return ['abidiff-suppr', 'abidiff-suppr-nodbg', 'abidw-suppr', 'abicompat-suppr']
 
 
 def applies(cmd, fi, f):
+    if cmd == 'abidiff-suppr-nodbg':
+        # binaries without debug info: ELF symbols that no declaration describes are added and removed, which is the only
+        # way into the symbol-level evaluation of function and variable suppressions
+        return fi % 5 == 2
     return cmd in ('abidiff-suppr', 'abidiff-kmi', 'abidiff-suppr-shapes') or (cmd == 'abidw-suppr' and fi % 4 == 0) or (cmd == 'abicompat-suppr' and fi % 4 == 1)
 
 
@@ -46,6 +50,8 @@ def command(ctx, it, cmd, dmg):
         return 'abidiff', ['abidiff', '--no-default-suppression', '--suppressions', dmg, L['alias_v0'], L['alias_v1']], None
     if cmd == 'abidiff-suppr-shapes':
         return 'abidiff', ['abidiff', '--no-default-suppression', '--suppressions', dmg, L['shapes_v0'], L['shapes_v2']], None
+    if cmd == 'abidiff-suppr-nodbg':
+        return 'abidiff', ['abidiff', '--no-default-suppression', '--suppressions', dmg, L['shapes_v0_nodbg'], L['shapes_v2_nodbg']], None
     if cmd == 'abidiff-kmi':
         return 'abidiff', ['abidiff', '--no-default-suppression', '--kmi-whitelist', dmg, L['alias_v0'], L['alias_v1']], None
     if cmd == 'abidw-suppr':
